@@ -335,6 +335,45 @@ func rewriteFile(rel string, src []byte) ([]byte, counts, bool, error) {
 		}
 	}
 
+	// 2b. package-level variables of basic type (counters, flags, cached strings): the explorer runs many executions
+	// in one process, so such state has to start every execution from its initial value, as it does in a fresh process
+	var resets []string
+	for _, d := range f.Decls {
+		gd, ok := d.(*ast.GenDecl)
+		if !ok || gd.Tok != token.VAR {
+			continue
+		}
+		for _, sp := range gd.Specs {
+			vs := sp.(*ast.ValueSpec)
+			tn := ""
+			if vs.Type != nil {
+				id, ok := vs.Type.(*ast.Ident)
+				if !ok || !basicTypes[id.Name] {
+					continue
+				}
+				tn = id.Name
+			}
+			switch {
+			case len(vs.Values) == 0 && tn != "":
+				for _, n := range vs.Names {
+					if n.Name != "_" {
+						resets = append(resets, fmt.Sprintf("{ var z %s; %s = z }", tn, n.Name))
+					}
+				}
+			case len(vs.Values) == len(vs.Names):
+				for i, n := range vs.Names {
+					if lit, ok := literalText(vs.Values[i]); ok && n.Name != "_" {
+						resets = append(resets, fmt.Sprintf("%s = %s", n.Name, lit))
+					}
+				}
+			}
+		}
+	}
+	if len(resets) > 0 {
+		c["global-reset"] += len(resets)
+		usesVsys = true
+	}
+
 	if len(c) == 0 {
 		return nil, c, false, nil
 	}
@@ -393,7 +432,34 @@ func rewriteFile(rel string, src []byte) ([]byte, counts, bool, error) {
 	if err := cfg.Fprint(&buf, fset, f); err != nil {
 		return nil, nil, false, err
 	}
+	if len(resets) > 0 {
+		fmt.Fprintf(&buf, "\nfunc init() {\n\t%s.OnReset(func() {\n", vsysName)
+		for _, r := range resets {
+			fmt.Fprintf(&buf, "\t\t%s\n", r)
+		}
+		buf.WriteString("\t})\n}\n")
+	}
 	return buf.Bytes(), c, true, nil
+}
+
+var basicTypes = map[string]bool{"int": true, "int8": true, "int16": true, "int32": true, "int64": true, "uint": true, "uint8": true,
+	"uint16": true, "uint32": true, "uint64": true, "uintptr": true, "bool": true, "string": true, "float32": true, "float64": true, "byte": true, "rune": true}
+
+// literalText: the source text of a literal initialiser (number, string, char, true/false, signed number)
+func literalText(e ast.Expr) (string, bool) {
+	switch x := e.(type) {
+	case *ast.BasicLit:
+		return x.Value, true
+	case *ast.Ident:
+		if x.Name == "true" || x.Name == "false" {
+			return x.Name, true
+		}
+	case *ast.UnaryExpr:
+		if bl, ok := x.X.(*ast.BasicLit); ok && (x.Op == token.SUB || x.Op == token.ADD) {
+			return x.Op.String() + bl.Value, true
+		}
+	}
+	return "", false
 }
 
 func mapRange(st *ast.RangeStmt) (string, string, bool) {
